@@ -340,12 +340,16 @@ pub fn parse_partial<F: LemireFloat, const FORMAT: u128>(
         parse_partial_number,
         parse_partial_special
     );
-    // Nothing after the sign belongs to a number (only possible if no digits
-    // are required): it may be a special value, as for the complete parser.
-    if count == byte.cursor() {
+    // The number stops before the end of the input: as the complete parser
+    // does, prefer a special value that matches more of it. This matters if
+    // no digits are required (the empty number is valid), or if the first
+    // letter of a special string is a digit of the radix (`inf`, radix 20).
+    if count < bytes.len() {
         if let Some(value) = parse_partial_special::<_, FORMAT>(byte.clone(), is_negative, options)
         {
-            return Ok(value);
+            if value.1 > count {
+                return Ok(value);
+            }
         }
     }
     // Try the fast-path algorithm.
